@@ -2,6 +2,8 @@
 
 package column
 
+import "math"
+
 func init() {
 	vndRegister("VerifC04Filters", VerifC04Filters)
 }
@@ -58,7 +60,11 @@ func VerifC04Filters() {
 		setup := false
 		cleared, unionAfterClear := false, false
 		for l := 0; l < L; l++ {
-			f := vndChoice("filter", 11)
+			nf := 11
+			if vndParam("fpUF") == 0 && vndParam("withFloat") == 1 {
+				nf = 12 // WithFloat only where floating point keeps its real semantics (thorough tier)
+			}
+			f := vndChoice("filter", nf)
 			if f == 8 {
 				cleared = true
 			}
@@ -122,6 +128,12 @@ func VerifC04Filters() {
 				}
 			case 9:
 				txn.Without("missing")
+			case 11:
+				kf := math.Float64frombits(vndU64("kf"))
+				txn.WithFloat("a", func(v float64) bool { return v < kf })
+				for i := 0; i < w.n; i++ {
+					sel[i] = sel[i] && w.a[i].has && float64(vAsInt64(kind, w.a[i].num)) < kf
+				}
 			case 10:
 				if setup {
 					txn.WithUnion("idx", "b")
